@@ -165,11 +165,21 @@ def check_position(spec, ctx):
             # expansion beyond a sequence-bearing collection's bounds is documented to be refused
             exp_kept = [k for k in kids if (not co or k[4]) and max(rs, k[2]) < min(re_, k[3])]
             beyond = ex and not cw and parent is not None and g is not None and any(k[2] < cstart or k[3] > cend for k in exp_kept)
+            if beyond:
+                ctx.label("expansion_beyond_refused")
             ctx.true("valid_query_refused", beyond, {"query": [qs, qe], "bounds": [cstart, cend], "flags": [cw, co, ex]})
             continue
         if invalid:
             ctx.fail("invalid_query_accepted", {"query": [qs, qe], "bounds": [cstart, cend]})
             continue
+        if ex and not cw and parent is not None and g is not None:
+            # documented: an expansion that would leave the associated sequence must be refused, on either side
+            kept_ = [k for k in kids if (not co or k[4]) and k[0] in ("gene", "fc") and max(rs, k[2]) < min(re_, k[3])]
+            over = [k for k in kept_ if k[2] < cstart or k[3] > cend]
+            if over:
+                ctx.label("expansion_would_leave_the_sequence")
+                ctx.fail("expansion_beyond_sequence_accepted", {"query": [qs, qe], "bounds": [cstart, cend], "member": [over[0][2], over[0][3]], "result_bounds": [res.start, res.end]})
+                continue
         expected = []
         for k in kids:
             if co and not k[4]:
@@ -302,7 +312,13 @@ def coll_base(draw, tier):
             lo = min(k[2] for k in kids)
             if mode == "chunk":
                 sp["chunk"] = [draw(st.integers(0, lo)), draw(st.integers(hi, n))]
-            if draw(st.integers(0, 2)) == 0:
+                if draw(st.integers(0, 2)) == 0 and hi - lo >= 3:
+                    # a chunk that cuts members: they overhang the collection's bounds on one or both sides
+                    a = draw(st.integers(lo, hi - 2))
+                    b = draw(st.integers(a + 2, hi))
+                    sp["chunk"] = [a if draw(st.booleans()) else sp["chunk"][0], b if draw(st.booleans()) else sp["chunk"][1]]
+                    sp["cutting_chunk"] = True
+            if draw(st.integers(0, 2)) == 0 and not sp.get("cutting_chunk"):
                 # the collection's own bounds given explicitly: inside the sequence / chunk window, containing every member
                 w_lo, w_hi = sp.get("chunk") or (0, n)
                 o["start"] = draw(st.integers(w_lo, lo))
@@ -386,7 +402,7 @@ PROP = Prop(
     legs=[
         Leg("position", check_position, strategy=strat_position, n_quick=350, n_thorough=3500, shards_quick=4,
             must_hit=["child_end==query_end", "child_start==query_start", "bin_boundary_crossed", "on_chunk", "coding_only&variants",
-                      "bins_prefilter_active", "member_sequence_checked", "member_sliced_by_bounds", "invalid_query_refused", "empty_result", "explicit_start_inside_sequence", "relaxed_query_between_children_of_a_wide_member"],
+                      "bins_prefilter_active", "member_sequence_checked", "member_sliced_by_bounds", "invalid_query_refused", "empty_result", "explicit_start_inside_sequence", "relaxed_query_between_children_of_a_wide_member", "expansion_beyond_refused"],
             rule="collections (0..3 genes, 0..2 feature collections, optional variant collection) on no parent / id-only parent / whole chromosome / chunk, or shifted to sit around a multiple of 2^17 (sequence-less); 8..14 query ranges each (absolute, None, or pinned to a child's start/end +-1) x completely_within x coding_only x expand"),
         Leg("small_exhaustive", check_position, enumerate=enum_small, exhaustive=True, shards_quick=16, shards_thorough=16,
             rule="one fixed 5-member collection on three parents: ALL (start,end) ranges within the bounds x all 8 flag combinations"),
